@@ -221,8 +221,25 @@ def literal_table():
     return dict(_literals)
 
 
+WF_SEQS: dict = {}    # id -> (term, datatype): sequence constants known to be in normal form (n >= 0)
+
+
+def register_wf(v):
+    if isinstance(v, V) and v.ty[0] == 'seq' and z3.is_const(v.t) and v.t.decl().kind() == z3.Z3_OP_UNINTERPRETED:
+        WF_SEQS[v.t.get_id()] = (v.t, v.ty)
+    return v
+
+
+def reset_wf():
+    WF_SEQS.clear()
+
+
+def wf_axioms():
+    return [_dt[ty].n(t) >= 0 for t, ty in WF_SEQS.values()]
+
+
 def fresh(ty, hint='v'):
-    return V(ty, FreshConst(sort_of(ty), hint))
+    return register_wf(V(ty, FreshConst(sort_of(ty), hint)))
 
 
 # seq helpers -----------------------------------------------------------
@@ -247,6 +264,8 @@ def seq_n(v):
             return raw
     else:
         raw = _dt[v.ty].n(v.t)
+        if v.t.get_id() in WF_SEQS:
+            return raw
     return If(raw >= 0, raw, 0)
 
 
@@ -276,13 +295,29 @@ def seq_mem(v, x):
     return Exists([k], And(0 <= k, k < seq_n(v), Select(seq_arr(v), k) == x))
 
 
+def forall_p(vs, body, patterns):
+    """ForAll with explicit patterns when z3 accepts them, automatic patterns otherwise."""
+    def simple(t, depth=0):
+        if depth > 6 or not z3.is_app(t):
+            return not z3.is_quantifier(t)
+        if t.decl().kind() in (z3.Z3_OP_ITE, z3.Z3_OP_OR, z3.Z3_OP_AND, z3.Z3_OP_NOT, z3.Z3_OP_EQ):
+            return False
+        return all(simple(c, depth + 1) for c in t.children())
+    if all(simple(p) for p in patterns):
+        try:
+            return ForAll(vs, body, patterns=patterns)
+        except z3.Z3Exception:
+            pass
+    return ForAll(vs, body)
+
+
 def seq_eq(a, b):
     """Python == on lists/tuples: same length, same elements on the range."""
     k = z3.FreshInt('ke')
     return And(seq_n(a) == seq_n(b),
-               ForAll([k], Implies(And(0 <= k, k < seq_n(a)),
-                                   val_eq(seq_get(a, k), seq_get(b, k))),
-                      patterns=[Select(seq_arr(a), k), Select(seq_arr(b), k)]))
+               forall_p([k], Implies(And(0 <= k, k < seq_n(a)),
+                                     val_eq(seq_get(a, k), seq_get(b, k))),
+                        [Select(seq_arr(a), k), Select(seq_arr(b), k)]))
 
 
 def seq_distinct(v):
@@ -531,4 +566,5 @@ def base_axioms():
     ax.append(ForAll([x], ord_inv(ord_f(x)) == x, patterns=[ord_f(x)]))
     ax += literal_axioms()
     ax += card_axioms()
+    ax += wf_axioms()
     return ax
